@@ -782,3 +782,73 @@ Proof.
   induction (ll_contribs ll) as [|c t IH]; simpl; [reflexivity|].
   rewrite (G c (or_introl eq_refl)). f_equal. apply IH. intros x Hx. apply G. now right.
 Qed.
+
+(* ---------- the levels merged into one pot have the same eligible players ---------- *)
+Section SameElig.
+  Variables (cs : list (Z * Z)) (fs : list Z).
+  Hypothesis Hkeys : zsorted (keys cs).
+
+  Definition pot_lv (p : pot) : Prop :=
+    forall l, In l (pt_levels p) -> elig cs fs (l_level l) = elig cs fs (pt_level p).
+
+  Lemma merge_from_lv lvs : forall lo cur,
+    pot_spec cs fs lo cur -> pot_lv cur -> levels_ok cs (pt_level cur) lvs ->
+    forall q, In q (merge_from cur (map (orig_pot fs) (build_levels cs (pt_level cur) lvs))) -> pot_lv q.
+  Proof.
+    induction lvs as [|l t IH]; intros lo cur Hc Hlv Hl q Hq.
+    - simpl in Hq. destruct Hq as [<-|[]]. exact Hlv.
+    - destruct Hl as (Hlt & Hg & Hrest). cbn [build_levels map] in Hq.
+      set (p := orig_pot fs (mkLevel l (l - pt_level cur) (zn (length (contributors_ge cs l)) * (l - pt_level cur)) (contributors_ge cs l))) in *.
+      cbn [merge_from] in Hq.
+      assert (Hp : pot_spec cs fs (pt_level cur) p) by (apply orig_pot_spec; [lia|exact Hg]).
+      assert (Hpl : pt_level p = l) by reflexivity.
+      assert (Hplv : pot_lv p) by (intros l' [<-|[]]; reflexivity).
+      destruct (Nat.eqb (length (pt_contribs cur)) (length (pt_contribs p))) eqn:E.
+      + apply Nat.eqb_eq in E. destruct (merge_into_spec cs fs Hkeys lo cur p Hc Hp E) as [Hm _].
+        assert (He : elig cs fs l = elig cs fs (pt_level cur)).
+        { destruct Hc as [_ _ _ C4]. destruct Hp as [_ _ _ P4]. rewrite C4, P4, !map_length in E.
+          apply elig_length_eq; [lia|]. simpl in E. symmetry. exact E. }
+        assert (Hmlv : pot_lv (merge_into cur p)).
+        { intros l' Hl'. cbn [merge_into pt_levels pt_level] in *. apply in_app_or in Hl' as [Hl'|Hl'].
+          - rewrite (Hlv l' Hl'). symmetry. exact He.
+          - destruct Hl' as [<-|[]]. reflexivity. }
+        apply (IH lo (merge_into cur p) Hm Hmlv Hrest q). exact Hq.
+      + destruct Hq as [<-|Hq]; [exact Hlv|].
+        apply (IH (pt_level cur) p Hp Hplv). { rewrite Hpl. exact Hrest. } rewrite Hpl. exact Hq.
+  Qed.
+End SameElig.
+
+Theorem merged_pots_lv ll : ll_wf ll -> forall q, In q (merged_pots ll) -> pot_lv (ll_contribs ll) (ll_folded ll) q.
+Proof.
+  intros [A B C D] q Hq. unfold merged_pots, ll_levels in Hq.
+  destruct (ll_lvals ll) as [|l1 t] eqn:E; [contradiction|].
+  cbn [build_levels map] in Hq. rewrite merge_pots_from in Hq.
+  set (cs := ll_contribs ll) in *. set (fs := ll_folded ll) in *.
+  assert (H1 : 0 <= l1) by (apply D; now left).
+  assert (Hg : gap_free cs 0 l1).
+  { intros i w Hw. right. specialize (C i w Hw). destruct C as [<-|Hin]; [lia|].
+    pose proof (zsorted_head_lt l1 t B w Hin). lia. }
+  pose proof (orig_pot_spec cs fs 0 l1 H1 Hg) as Hp.
+  replace (l1 - 0) with l1 in * by lia.
+  set (p1 := orig_pot fs _) in *.
+  assert (Hl : levels_ok cs (pt_level p1) t).
+  { apply (levels_ok_of cs (l1 :: t) C B t [] l1). reflexivity. }
+  apply (merge_from_lv cs fs A t 0 p1 Hp); [intros l' [<-|[]]; reflexivity|exact Hl|exact Hq].
+Qed.
+
+Lemma put_back_shape j w ps :
+  map (fun p => (pt_level p, pt_levels p)) (put_back j w ps) = map (fun p => (pt_level p, pt_levels p)) ps.
+Proof. induction ps as [|p t IH]; simpl; [reflexivity|]. destruct (w <=? pt_level p); simpl; [reflexivity|now rewrite IH]. Qed.
+
+Theorem get_pots_lv ll : ll_wf ll -> forall q, In q (get_pots ll) -> pot_lv (ll_contribs ll) (ll_folded ll) q.
+Proof.
+  intros Hwf q Hq.
+  assert (Hshape : map (fun p => (pt_level p, pt_levels p)) (get_pots ll) = map (fun p => (pt_level p, pt_levels p)) (merged_pots ll)).
+  { unfold get_pots, put_back_all. fold (merged_pots ll). generalize (merged_pots ll).
+    induction (ll_folded ll) as [|j t IH]; intros ps; simpl; [reflexivity|]. rewrite IH.
+    destruct (_ =? 0); [reflexivity|apply put_back_shape]. }
+  assert (Hin : In (pt_level q, pt_levels q) (map (fun p => (pt_level p, pt_levels p)) (merged_pots ll))).
+  { rewrite <- Hshape. apply in_map_iff. exists q. auto. }
+  apply in_map_iff in Hin as (q' & E & Hq'). injection E as E1 E2.
+  pose proof (merged_pots_lv ll Hwf q' Hq') as H. unfold pot_lv in *. rewrite <- E1, <- E2. exact H.
+Qed.
